@@ -166,11 +166,40 @@ def main():
     knobs = {"sessions": 6, "versions": ["v3"], "auths": ["md5", "sha1"], "privs": [None, "des", "aes"],
              "ops": ["get", "get_many", "getnext", "refresh"], "beh_weights": [100, 0, 0, 0], "key_types": ["password", "password", "master", "localized"]}
     sj = [{"seed": a.seed * 77 + i, "steps": 120 if a.tier == "quick" else 2000, "aspects": ["mac", "priv", "auth_flag", "priv_flag", "panic", "outcome", "deaf", "create"],
-           "knobs": dict(knobs, shared_pw=("sharedpass%d" % i) if i % 2 else None)} for i in range(8)]
+           "knobs": dict(knobs, shared_pw=("sharedpass%d" % i) if i % 2 else None, same_octets=0.35 if i >= 4 else 0.0)} for i in range(8)]
     outs = runner.run_workers("vlib.scenario", "worker", sj, variant="rel", timeout=3000)
     s = c03.collect(chk, outs, "rel", PID)
     st["session_datagrams"] = s["requests"]
     chk.seen(s["requests"])
+    # (b') the whole key-type matrix, systematically: digest x cipher x auth key type x priv key type x engine given/discovered
+    # x client x relation between the two secrets (different; the same pass phrase; the very same octets handed over for both
+    # keys although their key types differ, e.g. a privacy *password* equal to the auth *master key*)
+    mx = []
+    for auth in ("md5", "sha1"):
+        for priv in ("des", "aes"):
+            for akt in ("password", "master", "localized"):
+                for pkt in ("password", "master", "localized"):
+                    for eg in (False, True):
+                        for cl in ("sync", "async"):
+                            for rel in ("distinct", "same_pw", "auth"):
+                                if rel == "auth" and pkt != "password":
+                                    continue
+                                pw = bytes(rng.randrange(33, 127) for _ in range(rng.choice([8, 9, 16, 20])))
+                                d = rigp.Cfg("v3", user="mx", auth=auth, priv=priv, auth_kt=akt, priv_kt=pkt, auth_pw=pw,
+                                             priv_pw=pw if rel == "same_pw" else pw + b"#2", engine_given=eg, client=cl).to_json()
+                                if rel == "auth":
+                                    d["_priv_octets"] = "auth"
+                                mx.append(d)
+    rng.shuffle(mx)
+    mj = [{"seed": a.seed * 91 + i, "cfgs": mx[i::16], "round_robin": True, "steps": len(mx[i::16]) * (4 if a.tier == "quick" else 12),
+           "aspects": ["mac", "priv", "auth_flag", "priv_flag", "panic", "outcome", "deaf", "create"],
+           "knobs": dict(knobs, ops=["get", "get_many", "refresh"], open_drop=0.0)} for i in range(16)]
+    outs = runner.run_workers("vlib.scenario", "worker", mj, variant="rel", timeout=3000)
+    s = c03.collect(chk, outs, "rel", PID)
+    st["matrix_configurations"] = len(mx)
+    st["matrix_datagrams"] = s["requests"]
+    chk.seen(s["requests"])
+    chk.floor("matrix_datagrams", s["requests"], len(mx) * 3)
     chk.extra.update(st)
     chk.floor("derivations", st.get("fn_rel", 0), 500)
     sys.exit(chk.finish())
